@@ -281,10 +281,11 @@ theorem OTO.WF.stepSide {s : OTO α} (h : s.WF) (side : Bool) (op : OtoOp α) : 
 
 theorem length_put {β : Type} (k : α) (v : β) (d : Dict α β) :
     (put k v d).length = if k ∈ keys d then d.length else d.length + 1 := by
-  have h := congrArg List.length (keys_put k v d)
+  have h := keys_put k v d
+  have hl : ∀ e : Dict α β, (keys e).length = e.length := fun e => by simp [keys]
   by_cases hk : k ∈ keys d
-  · simpa [hk, keys] using h
-  · simpa [hk, keys] using h
+  · rw [if_pos hk] at h ⊢; rw [← hl, h, hl]
+  · rw [if_neg hk] at h ⊢; rw [← hl, h]; simp [hl]
 
 theorem put_of_not_mem {β : Type} (k : α) (v : β) (d : Dict α β) (h : k ∉ keys d) :
     put k v d = d ++ [(k, v)] := by
@@ -418,6 +419,166 @@ theorem OTO.WF.ofPairs (ps : List (α × α)) : (OTO.ofPairs ps).WF := by
       rcases mem_putAll _ _ _ hp with h | h
       · simp at h
       · exact h
+
+theorem putAll_of_nodup {β : Type} (d ps : Dict α β) (h : NodupKeys (d ++ ps)) : putAll d ps = d ++ ps := by
+  induction ps generalizing d with
+  | nil => simp [putAll]
+  | cons p ps ih =>
+    have he : putAll d (p :: ps) = putAll (put p.1 p.2 d) ps := rfl
+    have hk : p.1 ∉ keys d := by
+      unfold NodupKeys keys at h
+      simp only [List.map_append, List.map_cons, List.nodup_append, List.mem_cons] at h
+      intro hm; exact h.2.2 _ hm _ (Or.inl rfl) rfl
+    rw [he, put_of_not_mem _ _ _ hk, ih]
+    · simp
+    · simpa using h
+
+theorem nodup_map_of_inj_on {β γ : Type} (f : β → γ) (l : List β) (hl : l.Nodup)
+    (hf : ∀ p ∈ l, ∀ q ∈ l, f p = f q → p = q) : (l.map f).Nodup := by
+  induction l with
+  | nil => simp
+  | cons x r ih =>
+    simp only [List.nodup_cons] at hl
+    simp only [List.map_cons, List.nodup_cons, List.mem_map, not_exists, not_and]
+    refine ⟨?_, ih hl.2 (fun p hp q hq => hf p (List.mem_cons_of_mem _ hp) q (List.mem_cons_of_mem _ hq))⟩
+    intro q hq e
+    have := hf q (List.mem_cons_of_mem _ hq) x (by simp) e
+    exact hl.1 (this ▸ hq)
+
+theorem nodup_of_nodup_map {β γ : Type} (f : β → γ) (l : List β) (h : (l.map f).Nodup) : l.Nodup := by
+  induction l with
+  | nil => simp
+  | cons x r ih =>
+    simp only [List.map_cons, List.nodup_cons, List.mem_map, not_exists, not_and] at h
+    simp only [List.nodup_cons]
+    exact ⟨fun hx => h.1 x hx rfl, ih h.2⟩
+
+theorem nodup_values_of_wf {s : OTO α} (h : s.WF) : NodupKeys (s.fwd.map swap) := by
+  unfold NodupKeys
+  rw [swap_keys]
+  apply nodup_map_of_inj_on _ _ (nodup_of_nodup_map Prod.fst _ h.nf)
+  intro p hp q hq e
+  have h1 := (mem_iff_lookup _ h.nf p.1 p.2).1 hp
+  have h2 := (mem_iff_lookup _ h.nf q.1 q.2).1 hq
+  have h3 := (h.inverse _ _).1 h1
+  have h4 := (h.inverse _ _).1 h2
+  rw [e, h4] at h3
+  injection h3 with h3
+  exact Prod.ext h3.symm e
+
+/-- `x.copy()` / `OneToOne(x)` of a well-formed instance holds the same forward dict -/
+theorem OTO.ofPairs_of_wf {s : OTO α} (h : s.WF) : OTO.ofPairs s.fwd = ⟨s.fwd, s.fwd.map swap⟩ := by
+  have h1 : putAll ([] : Dict α α) s.fwd = s.fwd := by
+    have := putAll_of_nodup ([] : Dict α α) s.fwd (by simpa using h.nf); simpa using this
+  have h2 : putAll ([] : Dict α α) (s.fwd.map swap) = s.fwd.map swap := by
+    have := putAll_of_nodup ([] : Dict α α) (s.fwd.map swap) (by simpa using nodup_values_of_wf h)
+    simpa using this
+  unfold OTO.ofPairs
+  rw [h1, h2]
+  simp
+
+/-! register file -/
+
+def AllWF (regs : List (OTO α)) : Prop := ∀ s ∈ regs, s.WF
+
+theorem AllWF.append {regs : List (OTO α)} (h : AllWF regs) {s : OTO α} (hs : s.WF) : AllWF (regs ++ [s]) := by
+  intro x hx
+  simp only [List.mem_append, List.mem_singleton] at hx
+  rcases hx with hx | hx
+  · exact h x hx
+  · exact hx ▸ hs
+
+theorem AllWF.set {regs : List (OTO α)} (h : AllWF regs) (r : Nat) {s : OTO α} (hs : s.WF) :
+    AllWF (regs.set r s) := by
+  intro x hx
+  rcases List.mem_or_eq_of_mem_set hx with hx | hx
+  · exact h x hx
+  · exact hx ▸ hs
+
+theorem AllWF.get {regs : List (OTO α)} (h : AllWF regs) {r : Nat} {s : OTO α} (hr : regs[r]? = some s) : s.WF :=
+  h s (List.mem_of_getElem? hr)
+
+theorem otoCmd_wf {regs regs' : List (OTO α)} {c : OtoCmd α} {ret : Ret α}
+    (h : AllWF regs) (hc : otoCmd regs c = some (regs', ret)) : AllWF regs' := by
+  cases c with
+  | new src =>
+    simp only [otoCmd, Option.map_eq_some_iff] at hc
+    obtain ⟨ps, _, he⟩ := hc
+    injection he with he _; subst he
+    exact h.append (OTO.WF.ofPairs ps)
+  | unique src =>
+    simp only [otoCmd, Option.map_eq_some_iff] at hc
+    obtain ⟨ps, _, he⟩ := hc
+    unfold OTO.uniqueOfPairs at he
+    split at he
+    next s1 hq =>
+      injection he with he _; subst he
+      split at hq
+      · injection hq with hq; subst hq; exact h.append (OTO.WF.ofPairs ps)
+      · simp at hq
+    next => injection he with he _; subst he; exact h.append OTO.WF.empty
+  | copy r side =>
+    simp only [otoCmd, Option.map_eq_some_iff] at hc
+    obtain ⟨s, _, he⟩ := hc
+    injection he with he _; subst he
+    exact h.append (OTO.WF.ofPairs _)
+  | op r side op =>
+    simp only [otoCmd, Option.map_eq_some_iff] at hc
+    obtain ⟨s, hs, he⟩ := hc
+    injection he with he _; subst he
+    exact h.set r ((h.get hs).stepSide side op)
+  | updateFrom r side src =>
+    simp only [otoCmd] at hc
+    split at hc
+    next s ps hs hps =>
+      injection hc with hc; injection hc with hc _; subst hc
+      exact h.set r ((h.get hs).stepSide side _)
+    next => simp at hc
+
+theorem otoRun_wf {regs regs' : List (OTO α)} (cs : List (OtoCmd α))
+    (h : AllWF regs) (hr : otoRun regs cs = some regs') : AllWF regs' := by
+  induction cs generalizing regs with
+  | nil => simp only [otoRun] at hr; injection hr with hr; exact hr ▸ h
+  | cons c cs ih =>
+    simp only [otoRun] at hr
+    split at hr
+    next r1 ret hc => exact ih (otoCmd_wf h hc) hr
+    next => simp at hr
+
+/-- a command leaves every register other than its target untouched, and never removes one -/
+theorem otoCmd_isolated {regs regs' : List (OTO α)} {c : OtoCmd α} {ret : Ret α}
+    (hc : otoCmd regs c = some (regs', ret)) (j : Nat) (hj : j < regs.length)
+    (ht : ∀ r side op, c = .op r side op → j ≠ r) (ht2 : ∀ r side src, c = .updateFrom r side src → j ≠ r) :
+    regs'[j]? = regs[j]? := by
+  cases c with
+  | new src =>
+    simp only [otoCmd, Option.map_eq_some_iff] at hc
+    obtain ⟨ps, _, he⟩ := hc
+    injection he with he _; subst he
+    simp [List.getElem?_append, hj]
+  | unique src =>
+    simp only [otoCmd, Option.map_eq_some_iff] at hc
+    obtain ⟨ps, _, he⟩ := hc
+    split at he <;> (injection he with he _; subst he; simp [List.getElem?_append, hj])
+  | copy r side =>
+    simp only [otoCmd, Option.map_eq_some_iff] at hc
+    obtain ⟨s, _, he⟩ := hc
+    injection he with he _; subst he
+    simp [List.getElem?_append, hj]
+  | op r side op =>
+    simp only [otoCmd, Option.map_eq_some_iff] at hc
+    obtain ⟨s, hs, he⟩ := hc
+    injection he with he _; subst he
+    have := ht r side op rfl
+    simp [List.getElem?_set, Ne.symm this]
+  | updateFrom r side src =>
+    simp only [otoCmd] at hc
+    split at hc
+    next s ps hs hps =>
+      injection hc with hc; injection hc with hc _; subst hc
+      have := ht2 r side src rfl
+      simp [List.getElem?_set, Ne.symm this]
+    next => simp at hc
 
 end oto
 end C17
